@@ -66,7 +66,110 @@ def mesh_of(df, m, emb, dims=None, units=None, flip=None, bc="", subregions=None
     mesh = df.Mesh(region=reg, n=n, bc=bc, subregions=subregions)
     from . import fld
     fld.disown(subregions)   # the input Region objects remain the caller's: moving them must not move the mesh's
-    return mesh
+    return arrive_in_place(df, mesh, emb, (sum(int(x) for x in m["n"]) * 7 + sum(int(x) // 4 for x in m["lo"]) * 3 + int(m["c"][0]) // 4 + len(emb.name)))
+
+
+# ---------------------------------------------------------------- objects that ARRIVE at their state by in-place steps
+def _core(mesh):
+    regs = [mesh.region] + [mesh.subregions[k] for k in mesh.subregions]
+    return ([(np.asarray(r.pmin, dtype=float), np.asarray(r.pmax, dtype=float), tuple(r.units), tuple(r.dims)) for r in regs],
+            tuple(int(v) for v in mesh.n), tuple(mesh.subregions), mesh.bc)
+
+
+def _same_core(a, b, exact):
+    (ra, na, ka, ba), (rb, nb, kb, bb) = _core(a), _core(b)
+    if na != nb or ka != kb or ba != bb or len(ra) != len(rb):
+        return False
+    scale = max(float(np.max(np.abs(np.concatenate([ra[0][0], ra[0][1]])))), float(np.min(ra[0][1] - ra[0][0])))
+    for (l1, h1, u1, d1), (l2, h2, u2, d2) in zip(ra, rb):
+        if u1 != u2 or d1 != d2:
+            return False
+        if exact:
+            if not (np.array_equal(l1, l2) and np.array_equal(h1, h2)):
+                return False
+        elif not (np.all(np.abs(l1 - l2) <= 1e-13 * scale) and np.all(np.abs(h1 - h2) <= 1e-13 * scale)):
+            return False
+    return True
+
+
+def _warm(mesh):
+    try:
+        mesh.cell, mesh.dV, len(mesh), mesh.cells, mesh.vertices, mesh.region.edges, mesh.region.center, mesh.region.volume
+        mesh.index2point(tuple(0 for _ in mesh.n)), list(mesh.indices)[:1]
+    except Exception:  # noqa: BLE001  (reads only; nothing is judged here)
+        pass
+
+
+ARRIVALS = {"direct": 0, "translate": 0, "scale": 0, "rotate90": 0, "fallback": 0}
+
+
+def arrive_in_place(df, mesh, emb, salt):
+    """Half of the meshes the checks work on are not fresh from the constructor but ARRIVE at the same state through
+    in-place steps of the public API (there and back by a translation / a scaling, or a quarter turn from the pre-image),
+    after every derived attribute has been read once: nothing the library derives from (region, n) may be stale afterwards
+    (seeded changes C01-3, C06-1, C07-11, C13-11, C14-11 memoised cell / dV / cells and forgot one of the in-place paths).
+    The arrival itself is not judged here (that is C12 / C13): if the arrived object does not have the state of the directly
+    constructed one BIT FOR BIT, the direct one is used.  (A first version accepted 1e-13 on non-dyadic embeddings: requests
+    exactly on the region boundary, which the checks derive from the ideal lattice, were then one ulp outside the arrived
+    region and `sel` refused them - a false alarm of the harness, corrected by demanding identity.)"""
+    import os
+
+    route = salt % 6
+    if route < 3 or os.environ.get("VERIF_ARRIVE", "1") != "1" or mesh.region.pmin.dtype.kind != "f":
+        ARRIVALS["direct"] += 1
+        return mesh
+    nd = mesh.region.ndim
+    edges = np.asarray(mesh.region.edges, dtype=float)
+    try:
+        if route == 5 and nd >= 2:
+            kind = "rotate90"
+            a, b = 0, 1
+            lo, hi = np.asarray(mesh.region.pmin, dtype=float), np.asarray(mesh.region.pmax, dtype=float)
+            c = (lo + hi) / 2
+
+            def pre(l, h):
+                l2, h2 = l.copy(), h.copy()
+                l2[a], h2[a] = c[a] + (l[b] - c[b]), c[a] + (h[b] - c[b])
+                l2[b], h2[b] = c[b] - (h[a] - c[a]), c[b] - (l[a] - c[a])
+                return l2, h2
+
+            units, n = list(mesh.region.units), [int(v) for v in mesh.n]
+            units[a], units[b] = units[b], units[a]
+            n[a], n[b] = n[b], n[a]
+            plo, phi = pre(lo, hi)
+            subs = {}
+            for k, r in mesh.subregions.items():
+                sl, sh = pre(np.asarray(r.pmin, dtype=float), np.asarray(r.pmax, dtype=float))
+                subs[k] = df.Region(p1=sl, p2=sh, dims=mesh.region.dims, units=units)
+            other = df.Mesh(region=df.Region(p1=plo, p2=phi, dims=mesh.region.dims, units=units,
+                                             tolerance_factor=mesh.region.tolerance_factor), n=n, bc=mesh.bc, subregions=subs)
+            _warm(other)
+            other.rotate90(mesh.region.dims[a], mesh.region.dims[b], k=1, inplace=True)
+        else:
+            kind = "translate" if route != 4 else "scale"
+            other = df.Mesh(region=df.Region(p1=mesh.region.pmin, p2=mesh.region.pmax, dims=mesh.region.dims, units=mesh.region.units,
+                                             tolerance_factor=mesh.region.tolerance_factor),
+                            n=tuple(int(v) for v in mesh.n), bc=mesh.bc,
+                            subregions={k: df.Region(p1=r.pmin, p2=r.pmax, dims=r.dims, units=r.units) for k, r in mesh.subregions.items()})
+            _warm(other)
+            if kind == "translate":
+                v = tuple(float(4 * e) for e in edges)
+                other.translate(v, inplace=True)
+                _warm(other)
+                other.translate(tuple(-x for x in v), inplace=True)
+            else:
+                ref = tuple(float(x) for x in mesh.region.pmin)
+                other.scale(2.0, reference_point=ref, inplace=True)
+                _warm(other)
+                other.scale(0.5, reference_point=ref, inplace=True)
+    except Exception:  # noqa: BLE001  a refusal of the in-place route is C13's business, not this check's
+        ARRIVALS["fallback"] += 1
+        return mesh
+    if not _same_core(mesh, other, exact=True):
+        ARRIVALS["fallback"] += 1
+        return mesh
+    ARRIVALS[kind] += 1
+    return other
 
 
 def box_region(df, b, emb, **kw):
